@@ -137,108 +137,8 @@ def run_generations(case):
     return None, {}
 
 
-class ProbeTime(float):
-    """A time type with comparison methods written in Python (as quantities have)
-    that lets somebody look at the list while two times are being compared."""
-    look = None
-
-    def _l(self):
-        f = ProbeTime.look
-        if f is not None:
-            f()
-
-    def __lt__(self, o):
-        self._l()
-        return float.__lt__(self, o)
-
-    def __le__(self, o):
-        self._l()
-        return float.__le__(self, o)
-
-    def __gt__(self, o):
-        self._l()
-        return float.__gt__(self, o)
-
-    def __ge__(self, o):
-        self._l()
-        return float.__ge__(self, o)
-
-    def __eq__(self, o):
-        self._l()
-        return float.__eq__(self, o)
-
-    def __ne__(self, o):
-        self._l()
-        return float.__ne__(self, o)
-
-    __hash__ = float.__hash__
-
-
-def run_reentrant(case):
-    """size() / is_empty() asked from inside a comparison of two event times while an
-    operation is in progress (a re-entrant look, or what a second thread would see):
-    the answer lies between the sizes before and after the operation."""
-    import random as _random
-    rng = _random.Random(case["seed"])
-    SimEvent._SimEvent__event_counter = 0
-    el = EventListHeap()
-    tgt = _Target()
-    pending = []
-    seen = []
-
-    def look():
-        ProbeTime.look = None            # (the look itself compares nothing)
-        try:
-            seen.append((el.size(), el.is_empty()))
-        finally:
-            ProbeTime.look = look
-    n_ops = 0
-    try:
-        for step in range(case["n"]):
-            r = rng.random()
-            before = el.size()
-            seen.clear()
-            if r < 0.55 or len(pending) < 4:
-                ev = SimEvent(ProbeTime(rng.randrange(0, 12) / 2.0), tgt, "m", rng.choice(PRIOS))
-                ProbeTime.look = look
-                el.add(ev)
-                ProbeTime.look = None
-                pending.append(ev)
-                what = "add"
-            elif r < 0.85:
-                ev = pending.pop(rng.randrange(len(pending)))
-                ProbeTime.look = look
-                el.remove(ev)
-                ProbeTime.look = None
-                what = "remove"
-            else:
-                ProbeTime.look = look
-                ev = el.pop_first()
-                ProbeTime.look = None
-                pending = [e for e in pending if e is not ev]
-                what = "pop_first"
-            n_ops += 1
-            after = el.size()
-            lo, hi = min(before, after), max(before, after)
-            for sz, emp in seen:
-                if not (lo <= sz <= hi) or emp != (sz == 0):
-                    return ("size", "during %s #%d (size %d before, %d after) a look at the list "
-                            "from inside a comparison of two event times saw size() == %d, "
-                            "is_empty() == %s" % (what, step, before, after, sz, emp)), \
-                        {"ops": n_ops}
-            if after != len(pending):
-                return ("size", "after %s #%d size() == %d, %d events pending"
-                        % (what, step, after, len(pending))), {"ops": n_ops}
-    finally:
-        ProbeTime.look = None
-    return None, {"ops": n_ops}
-
-
 def generate(seed, tier, idx=0):
     rng = common.rng_for(seed, "case")
-    if rng.random() < 4e-3:
-        return {"kind": "reentrant", "n": rng.choice([12, 30, 80]), "ttype": "float",
-                "seed": rng.getrandbits(32), "ops": []}
     if rng.random() < 2e-3:
         return {"kind": "generations", "n": rng.choice([50, 200, 400]), "generations": 3,
                 "ttype": "float", "seed": rng.getrandbits(32), "ops": []}
@@ -540,9 +440,6 @@ def execute(case):
         finding, _ = run_generations(case)
         info = {"ops": case["n"] * 2 * case["generations"], "interior_removed": True,
                 "pop_after": True}
-    elif case.get("kind") == "reentrant":
-        finding, ri = run_reentrant(case)
-        info = {"ops": ri["ops"], "interior_removed": True, "pop_after": True}
     elif case.get("kind") == "giant":
         finding, _ = run_giant(case)
         info = {"ops": case["n"] + case["removes"], "interior_removed": True, "pop_after": True}
